@@ -3,7 +3,7 @@ plus the exactly-modelled libc subset (calloc/free/memcpy/memset/memcmp)."""
 import sympy as sp
 
 from . import cast
-from .engine import (ArrV, FE, IntV, Junk, Loc, NonZeroV, NULL, PredV, PtrV, SymI, Unsupported, f_not, T, F)
+from .engine import ArrV, FE, IntV, Junk, Loc, NonZeroV, NULL, PredV, PtrV, SymI, Unsupported, f_not
 
 W25519 = [0, 26, 51, 77, 102, 128, 153, 179, 204, 230]     # bit position of limb i in radix 2^25.5
 
